@@ -10,6 +10,8 @@
 (*            queries the driver keeps disjoint; the key is the query's place in name order)      *)
 (*   groups   f, overlap, groups = [[key, [docnum..]]..]   Results.groups()  (key 0 = None)      *)
 (*            f = "_range" with buckets / "_query" with qs: keys are bucket / query numbers       *)
+(*   groupview f, overlap, maptype, sort, groups     the FacetMap views of an unlimited search's groups *)
+(*   resultsop op, q2, k1, k2, docs, n               r1.extend / filter / upgrade / upgrade_and_extend (r2) *)
 (*   collapse f, n, k, sort, order, docs, collapsed   search(collapse=f, collapse_limit=n, limit=k[, sortedby][, collapse_order]) *)
 (*   filtered filt, mask (queries or null), k, hits   search(filter=, mask=, limit=k)            *)
 (*   filteredlen  ..., n                              len() of those results                     *)
@@ -131,6 +133,40 @@ CollapseOK(idx, m, o) ==
      \* len() of collapsed results: the documents that remain, whatever the limit
      /\ o.len = Len(kept)
 
+\* the other views of the groups (FacetMap types), over the unlimited ranking: each group's documents in result
+\* order (OrderedList), as a set (UnorderedList), their number (Count), the first of them (Best)
+GroupMembers(idx, m, o, key) ==
+  LET spec == GroupsSpec(idx, DOMAIN m, o.f, o.overlap)
+  IN SelectSeq(CollapseRank(idx, m, o), LAMBDA d : d \in spec[key])
+GroupViewOK(idx, m, o) ==
+  LET spec == GroupsSpec(idx, DOMAIN m, o.f, o.overlap)
+      got == [i \in DOMAIN o.groups |-> o.groups[i][1]]
+  IN /\ ToSet(got) = DOMAIN spec /\ Cardinality(ToSet(got)) = Len(got)
+     /\ \A i \in DOMAIN o.groups :
+          LET mem == GroupMembers(idx, m, o, o.groups[i][1])
+              v == o.groups[i][2]
+          IN CASE o.maptype = "list" -> v = mem
+               [] o.maptype = "set" -> ToSet(v) = ToSet(mem) /\ Len(v) = Len(mem)
+               [] o.maptype = "count" -> v = Len(mem)
+               [] o.maptype = "best" -> v = mem[1]
+
+\* combining two Results objects: r1 = search(q, limit=k1), r2 = search(q2, limit=k2)
+ResultsOpFacts(idx, m, o) ==
+  LET m2 == Denote(idx, o.q2)
+      S1 == DOMAIN m
+      S2 == DOMAIN m2
+      top1 == Prefix(Rank(m), o.k1)
+      top2 == Prefix(Rank(m2), o.k2)
+      arein == SelectSeq(top1, LAMBDA d : d \in S2)
+      notin == SelectSeq(top1, LAMBDA d : d \notin S2)
+      other == SelectSeq(top2, LAMBDA d : d \notin S1)
+  IN CASE o.op = "extend" -> [docs |-> top1 \o other, n |-> Cardinality(S1 \cup S2)]
+       [] o.op = "filter" -> [docs |-> arein, n |-> Cardinality(S1 \cap S2)]
+       [] o.op = "upgrade" -> [docs |-> arein \o notin, n |-> Cardinality(S1)]
+       [] o.op = "downgrade" -> [docs |-> notin \o arein, n |-> Cardinality(S1)]
+       [] o.op = "upgrade_and_extend" -> [docs |-> arein \o notin \o other, n |-> Cardinality(S1 \cup S2)]
+ResultsOpOK(idx, m, o) == LET F == ResultsOpFacts(idx, m, o) IN o.docs = F.docs /\ o.n = F.n
+
 FilteredOK(idx, m, o) ==
   LET allow == IF o.hasfilt THEN DOMAIN Denote(idx, o.filt) ELSE DOMAIN m
       deny == IF o.hasmask THEN DOMAIN Denote(idx, o.mask) ELSE {}
@@ -155,6 +191,8 @@ ObsOK(idx, m, q, o) ==
   CASE o.kind = "sorted" -> SortedOK(idx, m, o)
     [] o.kind = "groups" -> GroupsOK(idx, m, o)
     [] o.kind = "collapse" -> CollapseOK(idx, m, o)
+    [] o.kind = "groupview" -> GroupViewOK(idx, m, o)
+    [] o.kind = "resultsop" -> ResultsOpOK(idx, m, o)
     [] o.kind \in {"filtered", "filteredlen"} -> FilteredOK(idx, m, o)
     [] o.kind = "page" -> PageOK(m, o)
     [] o.kind = "len" -> o.n = Cardinality(DOMAIN m)
@@ -175,7 +213,11 @@ Expected(idx, m, q, o) ==
                                collapsed |-> Cardinality(DOMAIN m) - Len(CollapseKept(idx, m, o)),
                                len |-> Len(CollapseKept(idx, m, o)),
                                docs_if_valueless_documents_share_a_key |->
-                                  Prefix(CollapseSeq(idx, rk, o.f, o.n, Len(rk), TRUE), o.k)]
+                                  Prefix(CollapseSeq(idx, rk, o.f, o.n, Len(rk), TRUE), o.k),
+                               len_if_valueless_documents_share_a_key |-> Len(CollapseSeq(idx, rk, o.f, o.n, Len(rk), TRUE))]
+    [] o.kind = "groupview" -> LET spec == GroupsSpec(idx, DOMAIN m, o.f, o.overlap) IN
+                               [groups_in_result_order |-> [key \in DOMAIN spec |-> GroupMembers(idx, m, o, key)]]
+    [] o.kind = "resultsop" -> ResultsOpFacts(idx, m, o)
     [] o.kind = "page" -> PageFacts(m, o)
     [] o.kind = "len" -> [n |-> Cardinality(DOMAIN m)]
     [] o.kind \in {"filtered", "filteredlen"} ->
